@@ -114,7 +114,10 @@ fn main() {
                 let mut emit = |line: String| lines.push(line);
                 match prop.as_str() {
                     "C01" => c01::generate(&mut rng, &tier, &mut emit),
-                    "C10" => c11::generate_c10(&mut rng, &tier, &mut emit),
+                    "C10" => {
+                        c11::generate_c10(&mut rng, &tier, &mut emit);
+                        c07::generate_c10(&mut rng, &tier, &mut emit);
+                    }
                     "C11" => c11::generate_c11(&mut rng, &tier, &mut emit),
                     "C02" => c02::generate(&mut rng, &tier, &mut emit),
                     "C16" => c16::generate(&mut rng, &tier, &mut emit),
